@@ -157,8 +157,8 @@ class Machine(object):
         self.on_error = 0
         self.in_handler = False
         self.resume_pc = None
-        self.err = UNKNOWN      # ERR / ERL are pinned only inside a handler
-        self.erl = UNKNOWN
+        self.err = 0            # fresh run: 0; inside a handler: the error; after RESUME: not pinned
+        self.erl = 0
         self.dptr = 0
         self.dmoved = 'start'
         self.out = bytearray()
@@ -391,7 +391,12 @@ class Machine(object):
         self._normalise_pc()
         if self.done is not None and self.done[0] == 'end' and self.in_handler and li >= 0 \
                 and self._ops(li)[oi][0] != 'end':
-            raise Unpinned('program text ends inside an error handler (No RESUME)')
+            # the program text ends inside an error handler: No RESUME, named after the last line
+            last = self.lines[-1][0]
+            self._ev('fatal:no-resume')
+            self.error_origin = 'semantic'
+            self.out += message(19) + b' in %d\xff\r\n' % last
+            self.done = ('error', 19, last)
 
     def _raise(self, li, oi, e):
         line = e.line if e.line is not None else self._lineno(li)
@@ -749,9 +754,9 @@ class Machine(object):
     def _x_resume(self, li, oi, op):
         where = op[1][1]
         if not self.in_handler:
-            if self.on_error:
-                raise Unpinned('RESUME outside a handler while a trap is armed')
-            self._ev('resume:outside-handler')
+            # RESUME without error stops the program, also while a trap is armed (it is never trapped)
+            self._ev('resume:outside-handler' + (':trap-armed' if self.on_error else ''))
+            self.on_error = 0
             raise BasicError(20)
         rli, roi = self.resume_pc
         self.in_handler = False
@@ -798,22 +803,30 @@ class Machine(object):
                 self._ev('read:out-of-data')
                 raise BasicError(4)
             dline, raw, sval, nval = self.data[self.dptr]
+            def store(value):
+                if isinstance(target, list):
+                    arr, i = self._index(target[1], target[2])
+                    arr[1][i] = value
+                else:
+                    self.vars[canon(name)] = value
             if canon(name)[-1] == '$':
                 if sval is None:
                     raise Unpinned('item without a pinned string reading')
-                v = sval
+                store(sval)
             else:
                 if nval is None:
+                    # the READ fails and the item is NOT consumed; what the variable holds now is not pinned
+                    store(UNKNOWN)
                     self._ev('read:non-numeric')
                     raise BasicError(2, dline)
                 v = Fraction(nval) if isinstance(nval, float) else nval
-            if isinstance(target, list):
-                arr, i = self._index(target[1], target[2])
-                arr[1][i] = v if canon(name)[-1] == '$' else self._convert(name, v)
-            elif canon(name)[-1] == '$':
-                self.vars[name] = v
-            else:
-                self._set(name, v)
+                try:
+                    v = self._convert(name, v)
+                except BasicError:
+                    store(UNKNOWN)
+                    self._ev('read:overflow')
+                    raise
+                store(v)
             self.dptr += 1
             # the mechanism of a wrong value is whatever last moved the data pointer
             self.log.append((len(self.out), 'read:after-' + self.dmoved))
